@@ -359,6 +359,8 @@ type reachInfo struct {
 	pred       map[*ssa.BasicBlock]*ssa.BasicBlock
 	from       ssa.Instruction
 	blocker    func(ssa.Instruction) bool
+	states     map[*ssa.BasicBlock][]knowMap // path knowledge with which each block is entered
+	fi         *FactInfo
 }
 
 func reachWithout(fn *ssa.Function, blocker func(ssa.Instruction) bool) *reachInfo {
@@ -367,7 +369,7 @@ func reachWithout(fn *ssa.Function, blocker func(ssa.Instruction) bool) *reachIn
 
 // reachWithoutFrom starts after instruction `from` (or at the entry if nil).
 func reachWithoutFrom(fn *ssa.Function, from ssa.Instruction, blocker func(ssa.Instruction) bool) *reachInfo {
-	ri := &reachInfo{entryReach: map[*ssa.BasicBlock]bool{}, firstBlock: map[*ssa.BasicBlock]int{}, pred: map[*ssa.BasicBlock]*ssa.BasicBlock{}, from: from, blocker: blocker}
+	ri := &reachInfo{entryReach: map[*ssa.BasicBlock]bool{}, firstBlock: map[*ssa.BasicBlock]int{}, pred: map[*ssa.BasicBlock]*ssa.BasicBlock{}, from: from, blocker: blocker, states: map[*ssa.BasicBlock][]knowMap{}}
 	for _, b := range fn.Blocks {
 		ri.firstBlock[b] = -1
 		for i, in := range b.Instrs {
@@ -380,45 +382,47 @@ func reachWithoutFrom(fn *ssa.Function, from ssa.Instruction, blocker func(ssa.I
 	if len(fn.Blocks) == 0 {
 		return ri
 	}
-	var work []*ssa.BasicBlock
+	// the search follows only feasible branch sides (jump threading over phi edges, see paths.go)
+	ps := &pathSearch{fn: fn, stop: blocker}
 	if from == nil {
+		ps.start, ps.startIdx = fn.Blocks[0], 0
 		ri.entryReach[fn.Blocks[0]] = true
-		work = append(work, fn.Blocks[0])
+		ri.states[fn.Blocks[0]] = append(ri.states[fn.Blocks[0]], knowMap{})
 	} else {
-		b := from.Block()
-		idx := instrIndex(from)
-		blocked := false
-		for i := idx + 1; i < len(b.Instrs); i++ {
-			if blocker(b.Instrs[i]) {
-				blocked = true
-				break
-			}
-		}
-		if !blocked {
-			for _, s := range b.Succs {
-				if !ri.entryReach[s] {
-					ri.entryReach[s] = true
-					ri.pred[s] = b
-					work = append(work, s)
-				}
-			}
-		}
+		ps.start, ps.startIdx = from.Block(), instrIndex(from)+1
 	}
-	for len(work) > 0 {
-		b := work[len(work)-1]
-		work = work[:len(work)-1]
-		if ri.firstBlock[b] >= 0 {
-			continue // blocked inside this block
-		}
-		for _, s := range b.Succs {
-			if !ri.entryReach[s] {
-				ri.entryReach[s] = true
-				ri.pred[s] = b
-				work = append(work, s)
-			}
-		}
+	ps.run()
+	ri.fi = ps.fi
+	for b, ks := range ps.Reached {
+		ri.entryReach[b] = true
+		ri.states[b] = append(ri.states[b], ks...)
+	}
+	for b, p := range ps.Pred {
+		ri.pred[b] = p
 	}
 	return ri
+}
+
+// ReachesSuccess: return r is reachable (in the sense of Reaches) on a path on which its error
+// result (index ei) is not known to be non-nil.
+func (ri *reachInfo) ReachesSuccess(r *ssa.Return, ei int) bool {
+	if !ri.Reaches(r) {
+		return false
+	}
+	b := r.Block()
+	states := ri.states[b]
+	if ri.from != nil && ri.from.Block() == b && instrIndex(r) > instrIndex(ri.from) {
+		states = append(append([]knowMap{}, states...), knowMap{})
+	}
+	if len(states) == 0 {
+		states = []knowMap{{}}
+	}
+	for _, k := range states {
+		if !returnIsFailure(ri.fi, r, ei, k) {
+			return true
+		}
+	}
+	return false
 }
 
 func (ri *reachInfo) Reaches(instr ssa.Instruction) bool {
